@@ -23,6 +23,11 @@ impl<Req, Res, E> Inner<Req, Res, E> {
             !final(self).ready@, final(self).polls == old(self).polls,
             *final(tr) == (Trace { ev: old(tr).ev.push(Ev::InnerCall(req)), calls: old(tr).calls + 1, last_req: Some(req), reqs: old(tr).reqs.push(req), call_at: old(tr).ev.len(), ..*old(tr) }),
     { unimplemented!() }
+    /// tower::ServiceExt::oneshot: drives THIS instance to readiness (an await of unbounded length) and then calls it
+    #[verifier::external_body]
+    pub fn oneshot(self, req: Req, Tracked(tr): Tracked<&mut Trace<Req, Res, E>>) -> (f: OneshotFut<Req, Res, E>)
+        ensures f.req == req, *final(tr) == *old(tr),
+    { unimplemented!() }
     /// a clone has not been driven to readiness (strict services such as Buffer reserve capacity in poll_ready)
     #[verifier::external_body]
     pub fn clone(&self) -> (r: Self) ensures !r.ready@ { unimplemented!() }
@@ -35,6 +40,23 @@ impl<Req, Res, E> InnerFut<Req, Res, E> {
             old(tr).unguarded == 0,   // #no_unguarded_duty_at_await @LEDGER_TAGS@
         ensures
             *final(tr) == (Trace { ev: old(tr).ev.push(Ev::InnerDone(r)), done: old(tr).done + 1, last_done: Some(r), slept_since_done: 0, granted_since_done: false, ..*old(tr) }),
+    { unimplemented!() }
+}
+pub struct OneshotFut<Req, Res, E> { pub req: Req, pub p: core::marker::PhantomData<(Res, E)> }
+impl<Req, Res, E> OneshotFut<Req, Res, E> {
+    /// either readiness fails (no inner call, the readiness error is the result) or the request is called and completes; in both
+    /// cases the task first waited for readiness (`blocked`)
+    #[verifier::external_body]
+    pub fn vx_await(self, Tracked(tr): Tracked<&mut Trace<Req, Res, E>>) -> (r: Result<Res, E>)
+        requires
+            call_gate(*old(tr)),   // #inner_call_gate @GATE_TAGS@
+            await_gate(*old(tr)),   // #inner_future_gate @GATE_TAGS@
+            old(tr).unguarded == 0,   // #no_unguarded_duty_at_await @LEDGER_TAGS@
+        ensures
+            (r is Err && *final(tr) == (Trace { blocked: old(tr).blocked + 1, ..*old(tr) }))
+            || *final(tr) == (Trace { ev: old(tr).ev.push(Ev::InnerCall(self.req)).push(Ev::InnerDone(r)), calls: old(tr).calls + 1, done: old(tr).done + 1,
+                   last_req: Some(self.req), reqs: old(tr).reqs.push(self.req), call_at: old(tr).ev.len(), last_done: Some(r), slept_since_done: 0,
+                   granted_since_done: false, blocked: old(tr).blocked + 1, ..*old(tr) }),
     { unimplemented!() }
 }
 pub assume_specification<T> [std::mem::replace::<T>] (dest: &mut T, src: T) -> (r: T)
